@@ -87,9 +87,22 @@ Theorem C19_realkey_cmp_order :
   (forall a b : key, cmp_of realmode a b = Eq <-> fst a = fst b).
 Proof. split; [exact real_cmp_antisym|]. split; [exact real_cmp_trans|exact real_cmp_eq_iff]. Qed.
 Print Assumptions C19_realkey_cmp_order.
-(* PARTIAL: integer and real-number keys WITH a compound part are decided on key triples by the oracle of checks/C19.py
-   (model Keys.v compared with the implementation's static comparators), not proved; the agreement of the model's exact
-   fraction with the long-double sum of the C code is compared on generated texts only. *)
+(* typed keys with a compound part, on the keys the API can produce (non-empty, encodable compound part, integer keys of
+   1..10 bytes): total preorders, the typed part first, then the compound part (greater first) *)
+Require Import IW.KV.KeysCompound2_proofs.
+Theorem C19_typed_compound_cmp_order :
+  (forall a b : rckey, rckey_cmp a b = CompOpp (rckey_cmp b a)) /\
+  (forall a b c : rckey, rckey_cmp a b = Lt -> rckey_cmp b c = Lt -> rckey_cmp a c = Lt) /\
+  (forall a b : rckey, rckey_cmp a b = Eq <-> proj1_sig a = proj1_sig b) /\
+  (forall a b : vckey, vckey_cmp a b = CompOpp (vckey_cmp b a)) /\
+  (forall a b c : vckey, vckey_cmp a b = Lt -> vckey_cmp b c = Lt -> vckey_cmp a c = Lt).
+Proof.
+  split; [exact realcompound_cmp_antisym|]. split; [exact realcompound_cmp_trans|]. split; [exact realcompound_cmp_eq_iff|].
+  split; [exact intcompound_cmp_antisym|exact intcompound_cmp_trans].
+Qed.
+Print Assumptions C19_typed_compound_cmp_order.
+(* PARTIAL: the agreement of the model's exact fraction with the long-double sum of the C code (iwafcmp) is compared on
+   generated texts only; malformed stored integer keys (longer than 10 bytes) are outside the theorems. *)
 
 Example C19_examples : atoi (dec (- 2 ^ 63)) = - 2 ^ 63 /\ hex2bin (bin2hex [0; 255; 26]) = [0; 255; 26] /\ set_vnum64 300 = [211; 2].
 Proof. vm_compute. repeat split; reflexivity. Qed.
